@@ -200,17 +200,53 @@ def run_c18(ctx: Ctx):
 REGISTRY["C18"] = run_c18
 
 
-def with_algebra_cone(inner, pid):
-    """C04/C06/C17 theorems are stated over the regenerated specifier algebra: re-check that cone and the
-    translator's validation stream as part of the property"""
-    def run(ctx: Ctx):
-        inner(ctx)
-        ok = props_spec.proof_step(ctx, "Props/C01.v", ["C01_closure (dependency: algebra exact on every expression)"], extra_targets=["Model/Corr.v"])
-        ctx.level = "other"
-        if not any(b["kind"] == "translation" for b in ctx.broken):
-            pairs = props_spec.corpus_pairs() + props_spec.spec_pairs(ctx, 400 if ctx.tier == "quick" else 6000, exhaustive=False)
-            props_spec.stream_sgen(ctx, pairs, with_predicates=False)
-    return run
+PARSE_TRUST = BASE_TRUST + [
+    "Model/SpecParse.v is a hand-written model of specifiers/__init__.py (_prefix_bounds, _from_pkg_specifier, from_specifierset, parse_version_specifier), "
+    "RangeSpecifier/UnionSpecifier._simplified_form and __str__, utils.pad_zeros / first_different_index and contains(), over TOKENISED clauses (operator, parsed Version); "
+    "`&` and `|` inside it are the GENERATED operators. The tie to the code is the S-parse stream (model vs implementation on texts; the implementation's rendered strings are tokenised by packaging and compared as clause sets)",
+    "the text layer is packaging's and is not modelled: which strings SpecifierSet accepts, str(Version)/Version(text) round trip, the iteration order of a SpecifierSet (the theorems hold for every order: and-folds are order independent in meaning)",
+    "clause_sem = packaging's Specifier.contains on FINAL releases is a model (PEP 440: comparison, prefix match with zero padding, compatible release); the S-parse stream compares it with the installed packaging on ~1900 (clause, version) pairs per run",
+    "wf_clause (what packaging's grammar guarantees: ~= has two release segments, a wildcard has one) is checked on every tokenised clause of the stream",
+    "ArbitrarySpecifier (===) is outside the model: decided by the direct oracle only",
+]
 
 
-REGISTRY["C04"] = with_algebra_cone(REGISTRY["C04"], "C04")
+def run_c17(ctx: Ctx):
+    import sparse
+    ctx.trusted_base = PARSE_TRUST
+    props_spec.proof_step(ctx, "Props/C17.v", ["C17_clause", "C17_set", "C17_parse"], extra_targets=["Model/CorrParse.v", "Model/Corr.v"])
+    if not any(b["kind"] == "translation" for b in ctx.broken):
+        sparse.stream_sparse(ctx, 200 if ctx.tier == "quick" else 2500)
+    pp.oracle_c17(ctx, _n(ctx, 1500, 30000))
+    ctx.coverage["rule"] = ("specifier texts over the public PEP 440 grammar (epochs, 1-5 release segments, every pre/post/dev spelling and separator, case, leading zeros, v prefix, whitespace), near-miss invalid strings and "
+                            "single-character mutations, || joins, <empty>; reference = packaging's SpecifierSet per alternative; S-parse: clauses, comma sets and || alternatives through the model")
+
+
+def run_c06(ctx: Ctx):
+    import sparse
+    ctx.trusted_base = PARSE_TRUST + ["exclusion tilde_safe = the recorded defect tilde-max-post (known finding; C06_tilde_refuted is its machine-checked witness)"]
+    props_spec.proof_step(ctx, "Props/C06.v", ["C06_value", "C06_reachable", "C06_tilde", "C06_nestar", "C06_tilde_refuted"], extra_targets=["Model/CorrParse.v", "Model/Corr.v"])
+    if not any(b["kind"] == "translation" for b in ctx.broken):
+        sparse.stream_sparse(ctx, 200 if ctx.tier == "quick" else 2500)
+    pp.oracle_c06(ctx, _n(ctx, 1200, 20000))
+    ctx.coverage["rule"] = ("parsed specifiers (fixed list hitting every rendering heuristic + random texts) and random &,|,~ trees over them; distinct = (class, number of ranges, bound-shape class: pre/post/dev/epoch/length mismatch); "
+                            "S-parse: str() of reachable values tokenised and compared with the model's rendering, is_simple(), parse of the rendered alternatives")
+
+
+def run_c04(ctx: Ctx):
+    import sparse
+    ctx.trusted_base = PARSE_TRUST + ["exclusion tilde_safe = the recorded defect tilde-max-post (known finding; C04_tilde_refuted is its machine-checked witness)",
+                                      "candidates are final releases (the property's own restriction)"]
+    props_spec.proof_step(ctx, "Props/C04.v", ["C04_clause", "C04_leaf", "C04_closure", "C04_empty_any", "C04_tilde_refuted"], extra_targets=["Model/CorrParse.v", "Model/Corr.v"])
+    if not any(b["kind"] == "translation" for b in ctx.broken):
+        sparse.stream_sparse(ctx, 200 if ctx.tier == "quick" else 2500)
+        pairs = props_spec.corpus_pairs() + props_spec.spec_pairs(ctx, 400 if ctx.tier == "quick" else 6000, exhaustive=False)
+        props_spec.stream_sgen(ctx, pairs, with_predicates=False)
+    pp.oracle_c04(ctx, _n(ctx, 1200, 20000))
+    ctx.coverage["rule"] = ("expression trees over parsed leaves; candidates = 39 fixed final releases plus final releases around every bound of the result; reference = Boolean combination of packaging's "
+                            "SpecifierSet(leaf).contains(v); S-parse: contains() of reachable values and packaging's Specifier.contains vs the model; S-gen: the generated algebra vs the code")
+
+
+REGISTRY["C17"] = run_c17
+REGISTRY["C06"] = run_c06
+REGISTRY["C04"] = run_c04
